@@ -245,6 +245,24 @@ struct ViewDriver : DriverBase<ViewDriver> {
         if (op == "sp_static") {
             // static-extent span: front/back/operator[] guards and compile-time first/last/subspan
             etl::span<int, 4> s4(ibuf.p + (st.k[0] % 5), 4);
+            if (bad && st.k[2] % 3 == 0) {
+                // a span of static extent 0 (obtained at compile time from a longer one): front() / back() on it
+                int sink     = 0;
+                int const w0 = static_cast<int>(st.k[1] % 6);
+                ctx.log.kv("zero", w0);
+                call(-1, true, false, [&] {
+                    switch (w0) {
+                    case 0: sink = s4.first<0>().front(); break;
+                    case 1: sink = s4.first<0>().back(); break;
+                    case 2: sink = s4.last<0>().front(); break;
+                    case 3: sink = s4.subspan<4>().front(); break;
+                    case 4: sink = s4.subspan<2, 0>().back(); break;
+                    default: sink = etl::span<int, 0>(ibuf.p, 0).front(); break;
+                    }
+                });
+                (void)sink;
+                return;
+            }
             size_t const idx = bad ? static_cast<size_t>(beyond(4, st.flt)) : static_cast<size_t>(st.k[1] % 4);
             int got          = 0;
             bool ok          = call(-1, bad, false, [&] { got = s4[idx]; });
@@ -430,11 +448,49 @@ struct ViewDriver : DriverBase<ViewDriver> {
                 text.push_back(st.k[2] % 8 == 0 ? 'x' : '.');
                 text.push_back('5');
             }
+            // a quarter of the texts sit exactly on a limit of the target type: max, max + 1, min, min - 1
+            int const which = static_cast<int>(st.v[0] % 5); // signed char, short, int, long, long long
+            bool const edge = st.k[2] % 4 == 1;
+            if (edge) {
+                static constexpr unsigned long long maxes[5] = {127ULL, 32767ULL, 2147483647ULL, 9223372036854775807ULL, 9223372036854775807ULL};
+                int const form = static_cast<int>(st.k[1] % 4);
+                unsigned long long const mag = maxes[which] + (form == 1 ? 1ULL : (form == 2 ? 1ULL : (form == 3 ? 2ULL : 0ULL)));
+                text = (form >= 2 ? "-" : "") + std::to_string(mag);
+                ctx.log.kv("edge", which * 10 + form);
+                SIM_COUNT("reach.integer_text_on_a_type_limit");
+            }
             ExactBuf<char> buf(text.size());
             for (size_t i = 0; i < text.size(); ++i) {
                 buf.p[i] = text[i];
             }
             ctx.log.kv("len", static_cast<long long>(text.size()));
+            if (edge) {
+                long long ev = 0;
+                int ee       = 0;
+                bool ok2     = call(-1, false, false, [&] {
+                    SV const v(buf.p, text.size());
+                    switch (which) {
+                    case 0: { auto const r = etl::strings::to_integer<signed char>(v, 10); ev = r.value; ee = static_cast<int>(r.error); break; }
+                    case 1: { auto const r = etl::strings::to_integer<short>(v, 10); ev = r.value; ee = static_cast<int>(r.error); break; }
+                    case 2: { auto const r = etl::strings::to_integer<int>(v, 10); ev = r.value; ee = static_cast<int>(r.error); break; }
+                    case 3: { auto const r = etl::strings::to_integer<long>(v, 10); ev = r.value; ee = static_cast<int>(r.error); break; }
+                    default: { auto const r = etl::strings::to_integer<long long>(v, 10); ev = r.value; ee = static_cast<int>(r.error); break; }
+                    }
+                });
+                if (ok2) {
+                    // max and min are representable, the other two are not
+                    int const form     = static_cast<int>(st.k[1] % 4);
+                    bool const fits    = form == 0 || form == 2;
+                    if (fits != (ee == 0)) {
+                        ctx.violation("C10", "diff:to_integer-limit", "a text on the limit of the target type was accepted / rejected wrongly"); // foreign
+                    }
+                    ctx.log.kv("err", ee);
+                    if (ee == 0) {
+                        ctx.log.i(ev);
+                    }
+                }
+                return;
+            }
             long long gotValue = 0;
             long gotEnd        = -1;
             int gotErr         = 0;
